@@ -101,6 +101,7 @@ def explore(ctx):
             else:
                 res.failures.append({"what": "unmarshal(T, unmarshal(T, x)) != unmarshal(T, x)", "input": inp,
                                      "real": {"first": r_["ok"], "second": a}})
+    flagged_patterns(res)
     return res
 
 
@@ -137,12 +138,92 @@ def has_shadow_member(val, prog):
     return walk(val)
 
 
+FLAG_SRC = """
+import dataclasses, re, typing
+@dataclasses.dataclass
+class Rule:
+    name: str
+    matcher: re.Pattern
+class RuleNT(typing.NamedTuple):
+    matcher: re.Pattern[str]
+    n: int = 0
+class RuleTD(typing.TypedDict):
+    matcher: re.Pattern
+"""
+# (annotation, value) -- compiled patterns carrying flags given as an argument (outside the model's alphabet: judged on the real
+# library only).  A Pattern instance is a valid value of re.Pattern whatever its flags; pass-through must keep source AND flags.
+FLAG_CASES = [
+    ("re.Pattern", "re.compile('^ab$', re.I)"), ("re.Pattern", "re.compile('^a.b$', re.M | re.S)"), ("re.Pattern", "re.compile(r'\\w+', re.A)"),
+    ("re.Pattern[str]", "re.compile('a  b  # c', re.X)"), ("re.Pattern[bytes]", "re.compile(b'ab', re.I)"), ("re.Pattern", "re.compile('(?i)ab')"),
+    ("typing.Optional[re.Pattern]", "re.compile('x', re.I)"), ("list[re.Pattern]", "[re.compile('1', re.I), re.compile('null', re.S)]"),
+    ("dict[str, re.Pattern]", "{'ab': re.compile(r'\\d{4}', re.M)}"), ("tuple[re.Pattern, ...]", "(re.compile('t', re.I),)"),
+    ("tuple[int, re.Pattern]", "(1, re.compile('t', re.X))"), ("Rule", "Rule('1', re.compile('[a-z]+', re.I))"),
+    ("RuleNT", "RuleNT(re.compile('[a-z]+', re.S), 2)"), ("RuleTD", "{'matcher': re.compile('z', re.I)}"),
+    ("list[Rule]", "[Rule('n', re.compile('q', re.I | re.M))]"),
+]
+
+
+def _flag_child(case):
+    import warnings
+    warnings.simplefilter("ignore")
+    import re
+    import typelib
+    import sys
+    import types
+    mod = types.ModuleType("vm_c13_flags")
+    sys.modules["vm_c13_flags"] = mod
+    ns = mod.__dict__
+    exec(FLAG_SRC, ns)
+    t, v = eval(case[0], ns), eval(case[1], ns)
+
+    def pats(x):
+        if isinstance(x, re.Pattern):
+            return [(type(x).__name__, x.pattern, x.flags)]
+        if isinstance(x, dict):
+            return [("dict",)] + [q for k in x for q in ([("key", k)] + pats(x[k]))]
+        if isinstance(x, (list, tuple)):
+            return [(type(x).__name__, len(x))] + [q for e in x for q in pats(e)]
+        if hasattr(x, "__dataclass_fields__"):
+            return [(type(x).__name__,)] + [q for f in x.__dataclass_fields__ for q in pats(getattr(x, f))]
+        return [(type(x).__name__, repr(x))]
+    try:
+        r = typelib.unmarshal(t, v)
+        out = {"ok": pats(r) == pats(v), "got": repr(r)[:200], "want": repr(v)[:200]}
+        r2 = typelib.unmarshal(t, r)
+        out["idem"] = pats(r2) == pats(r)
+    except Exception as e:  # noqa: BLE001
+        out = {"ok": False, "got": f"{type(e).__name__}: {e}"[:200], "want": repr(v)[:200], "idem": True}
+    return out
+
+
+def flagged_patterns(res):
+    """Pass-through of compiled patterns with explicit flags (source and flags both survive), at the root and nested."""
+    from .. import iso
+    outs = iso.map_isolated(_flag_child, FLAG_CASES, timeout=60.0)
+    for case, o in zip(FLAG_CASES, outs):
+        if not isinstance(o, dict) or "ok" not in o:
+            raise RuntimeError(f"harness: flagged-pattern probe failed: {o}")
+        res.case({"ann": case[0], "val": case[1], "family": "flagged-pattern"}, True)
+        if not o["ok"]:
+            res.failures.append({"what": "unmarshal(T, v) != v for a valid v (compiled pattern with flags)", "input": {"flag_case": list(case)},
+                                 "real": {"got": o["got"], "want": o["want"]}})
+        elif not o["idem"]:
+            res.failures.append({"what": "unmarshal(T, unmarshal(T, x)) != unmarshal(T, x) (compiled pattern with flags)",
+                                 "input": {"flag_case": list(case)}, "real": o})
+        else:
+            res.count("oracle:passthrough-ok(flagged-pattern)")
+
+
 def witness(fid):
     return None
 
 
 def replay(failure):
     inp = failure["input"]
+    if "flag_case" in inp:
+        o = _flag_child(inp["flag_case"])
+        print(json.dumps({"case": inp["flag_case"], "real": o}, indent=1))
+        return not (o["ok"] and o["idem"])
     job = {"prog": inp["prog"], "ops": [{"op": "um", "ty": inp["ty"], "val": inp["val"], "obs": ["idem"]}]}
     real, model = core.run_jobs([job])
     r_ = real[0][0]
